@@ -6,11 +6,11 @@ CHECKS = {
         'through once, each transform once in order, settlement of the received object is the C03 machine of the wrapped object; delay precedence per branch, exactly one stamp (the Delay as built, independent of the clock at stamping time) with '
         'both keys from one Delay, For/Until agree with the clock, atomic batch, nothing published without a delay unless AllowNoDelay; exactly one publish observation per counted call, '
         'one counter increment per delivered and settled message with the winning label, one handler observation per invocation with errors and panics as failures. '
-        'The subscriber and publisher acceptors the check evaluates are proved to accept every model run (list level: delivery order, trail per delivery, aggregated tables); Publish is also modelled in place on a heap (the same *Message several times in a batch) with a refinement theorem to the by-value model and transparency for arbitrary repetitions. Refuted with witnesses: handler panic and wrapped-publisher panic recorded as success (D11 and its publisher twin, both repaired by fix commits) and the handler middleware applied twice counting twice (known finding). '
+        'The subscriber and publisher acceptors the check evaluates are proved to accept every model run (list level: delivery order, trail per delivery, aggregated tables); Publish is also modelled in place on a heap (the same *Message several times in a batch) with a refinement theorem to the by-value model and transparency for arbitrary repetitions. Refuted with witnesses: handler panic and wrapped-publisher panic recorded as success (D11 and its publisher twin, both repaired by fix commits) and the handler middleware applied twice counting twice (repaired: per-invocation context mark; chain model with Retry proves any number of applications = one, Retry unaffected). '
         'Tied to the code on every run: random real decorator stacks around scripted publishers/subscribers, a private Prometheus registry gathered at quiescence, a real Router with '
         'AddPrometheusRouterMetrics 1-3 times, concurrent publishes, Delay values built over a second before they are stamped, a wrapped subscriber that drains inside its own Close against a busy consumer, delay constructors bracketed by clock readings; every snapshot compared with the model and judged by the proved acceptors.'),
   note=('Trusted: Coq kernel + vm_compute; Prometheus as a log of label tuples, context marks as booleans, watcher goroutines firing on the first settlement, RFC 3339 / Duration string round trips; '
-        'the Go harness and the two add-only export_verif.go files. Partial: for batches that repeat an object only the transparency acceptor is proved, counting and trail multiplicity are compared per case. '
+        'the Go harness and the two add-only export_verif.go files. Partial: the per-layer trail multiplicity on an object repeated inside one batch is compared with the code, not part of the proved acceptor. '
         'Thorough tier adds a -race run (testing).'),
   technique='Coq proof (induction over stacks, batches, call and op sequences; per-object invariant; refutation witnesses by vm_compute) + differential correspondence check on the real decorators, registry and Router',
   design_ref='DESIGN.md section 7 C20'),
